@@ -101,6 +101,7 @@ class World:
         self.dups = 0
         self.in_pass = False
         self.created_in_pass = 0
+        self.flags = {}            # named internal instants seen so far ('hard-intent:<jobid>' -> step), for triggers
         self.frames = []           # payloads of ACK / READY messages workers wrote (for the 'dup' fault)
         self.in_buf = bytearray()
         self.in_off = 0
